@@ -27,6 +27,16 @@ fn corpus(seed: u64, n: u64, small: bool) -> Vec<(String, Tree)> {
     games
 }
 
+/// games with many infosets (C02 / C03: several threads on sizes an implementation might special-case)
+fn large_corpus() -> Vec<(String, Tree)> {
+    // (a chain of depth 130 nests deeper than the JSON reader of the trace specification accepts: 255 levels)
+    let mut games: Vec<(String, Tree)> = zoo::large().into_iter().filter(|(n, _)| n.starts_with("cards")).collect();
+    for (_, t) in games.iter_mut() {
+        cfr::label_chance(t);
+    }
+    games
+}
+
 #[allow(clippy::too_many_arguments)]
 fn run_event(out: &mut Out, t: &Tree, meth: &str, preset: &str, k: usize, budget: u64, thr: f64, seed: u64, first: bool, last: bool) -> Option<(f64, f64)> {
     use cfr::verif;
@@ -79,22 +89,28 @@ pub fn record(args: &Args) {
     let mode = args.get("mode");
     let thorough = args.get_or("thorough", "0") == "1";
     let mut out = Out::create(args.get("out"));
-    let games = corpus(seed, n, mode == "c04");
+    let mut games = corpus(seed, n, mode == "c04");
+    let first_large = games.len();
+    if mode == "c02" || mode == "c03" {
+        games.extend(large_corpus());
+    }
     let budgets: &[u64] = if thorough { &[1, 4, 25, 100, 400, 2500, 10000] } else { &[1, 4, 25, 100, 400, 2500] };
     let mut runs = 0usize;
     let mut min_ratio = f64::INFINITY;
     let mut samples: Vec<Value> = Vec::new();
-    for (name, t) in games.iter() {
+    for (gix, (name, t)) in games.iter().enumerate() {
         let (d, ninf, _) = t.stats();
-        if d * ninf as f64 > 500.0 {
+        let large = gix >= first_large;
+        if d * ninf as f64 > 500.0 && !large {
             continue;
         }
         out.line(&json!({"e": "reset", "game": name, "tree": t}));
         match mode {
             "c02" => {
-                let ks: &[usize] = if thorough { &[1, 2, 3, 4, 8, 16] } else { &[1, 2, 4] };
+                let ks: &[usize] = if large { &[2, 3] } else if thorough { &[1, 2, 3, 4, 8, 16] } else { &[1, 2, 4] };
                 let mut seen = Vec::new();
-                for &budget in budgets {
+                let large_budgets: &[u64] = &[25, 2500];
+                for &budget in if large { large_budgets } else { budgets } {
                     for &k in ks {
                         if let Some((b, r)) = run_event(&mut out, t, "Full", "vanilla", k, budget, 0.0, seed, false, false) {
                             runs += 1;
@@ -118,8 +134,8 @@ pub fn record(args: &Args) {
                 }
             }
             "c03" => {
-                let ks: &[usize] = if thorough { &[1, 4] } else { &[1] };
-                for preset in PRESETS {
+                let ks: &[usize] = if large { &[2, 3] } else if thorough { &[1, 4] } else { &[1] };
+                for preset in (if large { &PRESETS[..2] } else { &PRESETS[..] }).iter().copied() {
                     for &k in ks {
                         for &budget in budgets {
                             // one series per (preset, threads): `first` / `last` mark budgets 25 and 2500 for the trend
